@@ -66,8 +66,17 @@ def paths(ds):
         'vertical, reversed': [(cx + 0.03 * w, y1 + 0.2), (cx + 0.031 * w, y0 - 0.2)],
         'heading north': [(cx + 0.03 * w, y0 - 0.04 * h), (cx + 0.032 * w, y1 + 0.04 * h)],
         **_shared_edge_paths(polys),
+        **_corner_touch_path(first, inner),
         'heading north from inside': [(cx - 0.13 * w, y0 + 0.03 * h), (cx - 0.128 * w, y1 - 0.02 * h)],
     }
+
+
+def _corner_touch_path(first, inner):
+    """a path that runs through the first cell and later ends exactly on one of its corners, arriving from outside: the cell meets the path in
+    a line piece and an isolated point (a geometry collection), and still has to be listed with its line piece (seeded change C18-m17)"""
+    c = first.exterior.coords[0]
+    vx, vy = c[0] - inner.x, c[1] - inner.y
+    return {'through a cell, then ends on a corner of it': [(inner.x, inner.y), (inner.x - 3.1 * vy, inner.y + 3.1 * vx), (c[0] + 0.83 * vx, c[1] + 0.83 * vy), (c[0], c[1])]}
 
 
 def _shared_edge_paths(polys):
